@@ -380,7 +380,7 @@ def check(pid, tier, seed, t0, st, replay):
     for k in ('ocaml', 'harness', 'cli', 'genscript'):
         if st.get(k, 1) != 0:
             res.tie_broken.append('build step %s failed' % k)
-    work = scratch('cli-' + pid)
+    work = scratch('cli-' + pid, deterministic='%s-%d' % (tier, seed))
     try:
         if not res.tie_broken or all('source gate' in t for t in res.tie_broken):
             stats, samples = {'C17': check_c17, 'C18': check_c18, 'C20': check_c20}[pid](tier, seed, res, work)
